@@ -78,6 +78,16 @@ def run(ctx):
             post = joker.rejection_sample(pb.data, pb.lib, in_memory=True, max_posterior_samples=9, return_logprobs=with_lp)
             if not many:
                 post = post[int(rng.integers(0, len(post)))]
+            shifted_tref = bool(rng.random() < 0.25) and post.t_ref is not None
+            if shifted_tref:
+                # samples that carry another reference epoch than the data (read from a file, made from another subset): the
+                # model is the data's model; which epoch the samples were expressed about only matters for the start values
+                from thejoker import JokerSamples as _JS
+                post2 = _JS(t_ref=post.t_ref - 20 * u.day, poly_trend=post.poly_trend, n_offsets=post.n_offsets)
+                for k_ in post.par_names:
+                    post2[k_] = post[k_]
+                post = post2
+            desc["samples_t_ref_shifted"] = shifted_tref
             units_before = {k: str(v) for k, v in pb.prior.par_units.items()}
             with pb.prior.model:
                 init = joker.setup_mcmc(pb.data, post)
